@@ -1,10 +1,14 @@
 import KoordVerif.Common.Proto
 import KoordVerif.Model.C15
 /-
-Driver for C15.  One case = one history.  Op lines (integer tokens, `_` = resource key absent):
-  add <name> <parent> <isParent> <tree> <force> <treeRoot> <swNeg> <hasPods> <nns> <ns>* <min>*3 <max>*3
+Driver for C15.  One case = one history.  Op lines (integer tokens, `_` = resource key absent / no label):
+  add <name> <parentCode> <isParentCode> <tree> <forceCode> <rootCode> <swShape> <listErr>
+      <npods> (<nsKind> <ns> <label|_>)*  <nsShape> <nns> <ns>*  <mnNil> <mxNil> <min>*3 <max>*3
   upd  (same layout)
-  del <name> <labelPods>
+  del <name> <listErr> <npods> (<nsKind> <ns> <label|_>)*
+The codes are RAW shapes of the object (Model: `Raw`, `decodeQI`, `decodeOp`): parentCode 98 = label absent,
+99 = label "", else a name; boolean labels 0 "false" / 1 "true" / 2 absent / 3 other string; swShape 0 absent /
+1 negative / 2 malformed / 3 non-negative / 4 ""; nsShape 0 canonical / 1 other spelling / 2 malformed.
   compact                 (from here on: one observation line per request, parts joined by " | ")
   try <add|upd|del ...>   (evaluate on the current state, print, do NOT commit)
 After every op: `res <0|1>`, then the recorded topology:
@@ -34,35 +38,64 @@ def showOpt : Option Int → String
 
 def showRL (r : RL) : String := " ".intercalate ((List.range dims).map (fun k => showOpt (r.get k)))
 
-def parseReq (ts : List String) : Option (QI × Bool × Bool) := do
+/-- `<npods> (<nsKind> <ns> <label|_>)*` followed by the rest -/
+def parsePods (ts : List String) : Option (List Pod × List String) := do
   match ts with
-  | nm :: pa :: ip :: tr :: fo :: rt :: sw :: hp :: nn :: rest =>
-    let nm ← nat? nm; let pa ← nat? pa; let ip ← nat? ip; let tr ← nat? tr
-    let fo ← nat? fo; let rt ← nat? rt; let sw ← nat? sw; let hp ← nat? hp; let nn ← nat? nn
-    if rest.length ≠ nn + 2 * dims then none else
-    let ns ← nats? (rest.take nn)
-    let vals ← (rest.drop nn).mapM optTok?
-    some ({ name := nm, parent := pa, isParent := ip ≠ 0, tree := tr, force := fo ≠ 0, treeRoot := rt ≠ 0,
-            mn := vals.take dims, mx := vals.drop dims, ns := ns }, sw ≠ 0, hp ≠ 0)
+  | n :: rest =>
+    let n ← nat? n
+    if rest.length < 3 * n then none else
+    let rec go : Nat → List String → Option (List Pod)
+      | 0, _ => some []
+      | k+1, a :: b :: c :: more => do
+        let a ← nat? a; let b ← nat? b
+        let l ← if c = "_" then some none else (nat? c).map some
+        let ps ← go k more
+        some ({ nsKind := a, ns := b, label := l } :: ps)
+      | _, _ => none
+    let ps ← go n rest
+    some (ps, rest.drop (3 * n))
   | _ => none
 
-def parseToks (ts : List String) : Option Op :=
+def parseReq (ts : List String) : Option (Raw × Bool × List Pod) := do
+  match ts with
+  | nm :: pa :: ip :: tr :: fo :: rt :: sw :: le :: rest =>
+    let nm ← nat? nm; let pa ← nat? pa; let ip ← nat? ip; let tr ← nat? tr
+    let fo ← nat? fo; let rt ← nat? rt; let sw ← nat? sw; let le ← nat? le
+    let (pods, rest) ← parsePods rest
+    match rest with
+    | sh :: nn :: rest =>
+      let sh ← nat? sh; let nn ← nat? nn
+      if rest.length ≠ nn + 2 + 2 * dims then none else
+      let ns ← nats? (rest.take nn)
+      let rest := rest.drop nn
+      match rest with
+      | a :: b :: vals =>
+        let a ← nat? a; let b ← nat? b
+        let vals ← vals.mapM optTok?
+        some ({ name := nm, parentCode := pa, isParentCode := ip, tree := tr, forceCode := fo, rootCode := rt,
+                swShape := sw, nsShape := sh, nsList := ns, mnNil := a ≠ 0, mxNil := b ≠ 0,
+                mn := vals.take dims, mx := vals.drop dims }, le ≠ 0, pods)
+      | _ => none
+    | _ => none
+  | _ => none
+
+def parseToks (ts : List String) : Option RawOp :=
   match ts with
   | "add" :: rest =>
     match parseReq rest with
-    | some (q, sw, _) => some (.add q sw)
+    | some (r, _, _) => some (.add r)
     | none => none
   | "upd" :: rest =>
     match parseReq rest with
-    | some (q, sw, hp) => some (.upd q sw hp)
+    | some (r, le, pods) => some (.upd r le pods)
     | none => none
-  | ["del", n, lp] =>
-    match nat? n, nat? lp with
-    | some n, some lp => some (.del n (lp ≠ 0))
-    | _, _ => none
+  | "del" :: n :: le :: rest =>
+    match nat? n, nat? le, parsePods rest with
+    | some n, some le, some (pods, []) => some (.del n (le ≠ 0) pods)
+    | _, _, _ => none
   | _ => none
 
-def parseOp (line : String) : Option Op := parseToks (toks line)
+def parseOp (line : String) : Option RawOp := parseToks (toks line)
 
 def dump (s : Topo) : List String :=
   let names := sortU (s.info.map (·.name))
@@ -90,12 +123,12 @@ def runLines : Topo → Bool → List String → List String
     | "try" :: rest =>
       match parseToks rest with
       | none => "bad-op" :: runLines s c ls
-      | some op => showRes c (step dims s op) ++ runLines s c ls
+      | some op => showRes c (stepRaw dims s op) ++ runLines s c ls
     | ts =>
       match parseToks ts with
       | none => "bad-op" :: runLines s c ls
       | some op =>
-        let r := step dims s op
+        let r := stepRaw dims s op
         showRes c r ++ runLines r.1 c ls
 
 def runCase (lines : List String) : List String := runLines init false lines
